@@ -1135,7 +1135,10 @@ impl C06 {
             // what predict_oob aggregates. Masks are matched to fit events in order (an implementation may fit and
             // discard trees; a mask that is the support of no remaining event is the violation).
             rep.count("steps.tree-fit-events", a.bags.len() as u64);
-            if rep.violation.is_none() && s.iter().all(|m| m.len() == n) && !a.bags.is_empty() {
+            // (the probe is thread-local: an implementation that grows trees on worker threads delivers fewer events than
+            // there are trees - then there is no complete history to judge against, and the clause is skipped)
+            rep.count("probe.tree-fit-history-incomplete", (a.bags.len() < s.len()) as u64);
+            if rep.violation.is_none() && s.iter().all(|m| m.len() == n) && a.bags.len() >= s.len() {
                 let mut ev = 0usize;
                 for (t, m) in s.iter().enumerate() {
                     let mut found = false;
